@@ -115,14 +115,16 @@ type syncObs struct {
 	panicked                             string
 }
 
-// runSync advertises u and lets a real client fetch the head and the root block
+// runSync advertises u and lets a real client fetch the head and the root block.  The
+// publisher's handler is mounted under the base path the way the publisher itself does it
+// (path.Join, i.e. cleaned): its prefix check works on the cleaned path.
 func (w *syncWorld) runSync(u *url.URL, handlerPath string) (o syncObs) {
 	defer func() {
 		if r := recover(); r != nil {
 			o.panicked = fmt.Sprint(r)
 		}
 	}()
-	pub, err := ipnisync.NewPublisher(w.pubLsys, w.key, ipnisync.WithHTTPListenAddrs(u.Host), ipnisync.WithHandlerPath(handlerPath), ipnisync.WithStartServer(false))
+	pub, err := ipnisync.NewPublisher(w.pubLsys, w.key, ipnisync.WithHTTPListenAddrs(u.Host), ipnisync.WithHandlerPath(strings.TrimLeft(handlerPath, "/")), ipnisync.WithStartServer(false))
 	if err != nil {
 		panic("harness: NewPublisher: " + err.Error())
 	}
